@@ -4,9 +4,30 @@ from . import gen
 from .oracle import Ref, positions
 
 
-def context_of(case):
+_SIBLINGS = []
+
+
+def context_of(case, sibling=True):
+    """Build the context of a table case.
+
+    Right after it, a *sibling* context with the same labels but one flipped cell is created and kept alive
+    (last 8): results about a context may depend on nothing but that context, so neither an earlier nor a
+    later instance with equal labels can be allowed to influence the answers the check is about to verify.
+    """
     import concepts
-    return concepts.Context(case['o'], case['p'], gen.bools_of(case))
+    bools = gen.bools_of(case)
+    context = concepts.Context(case['o'], case['p'], bools)
+    if sibling:
+        n, m = len(case['o']), len(case['p'])
+        t = sum(case['r']) + n * 7 + m
+        i, j = t % n, (t // n) % m
+        rows = [list(r) for r in bools]
+        rows[i][j] = not rows[i][j]
+        twin = concepts.Context(case['o'], case['p'], [tuple(r) for r in rows])
+        twin.intension([case['o'][i]])        # touch it: lazily installed state would be installed now
+        _SIBLINGS.append(twin)
+        del _SIBLINGS[:-8]
+    return context
 
 
 class Maps:
